@@ -36,6 +36,8 @@ impl WalPathManager {
     }
 
     pub(crate) fn ensure_root(&self) -> std::io::Result<()> {
+        #[cfg(walrus_verif)]
+        crate::wal::verif::io_check(crate::wal::verif::IoKind::CreateDir, &self.root.to_string_lossy(), "", 0, 0)?;
         fs::create_dir_all(&self.root)
     }
 
@@ -47,15 +49,23 @@ impl WalPathManager {
         self.ensure_root()?;
         let file_name = now_millis_str();
         let path = self.root.join(&file_name);
+        #[cfg(walrus_verif)]
+        crate::wal::verif::io_check(crate::wal::verif::IoKind::Create, &path.to_string_lossy(), "", 0, 0)?;
         let f = std::fs::File::create(&path)?;
+        #[cfg(walrus_verif)]
+        crate::wal::verif::io_check(crate::wal::verif::IoKind::SetLen, &path.to_string_lossy(), "", 0, MAX_FILE_SIZE)?;
         f.set_len(MAX_FILE_SIZE)?;
 
         // Sync file metadata (size, etc.) to disk
+        #[cfg(walrus_verif)]
+        crate::wal::verif::io_check(crate::wal::verif::IoKind::FileFsync, &path.to_string_lossy(), "", 0, 0)?;
         f.sync_all()?;
 
         // CRITICAL for Linux: Sync parent directory to ensure directory entry is durable
         // Without this, the file might exist but not be visible in directory listing after crash
         let dir = std::fs::File::open(&self.root)?;
+        #[cfg(walrus_verif)]
+        crate::wal::verif::io_check(crate::wal::verif::IoKind::DirFsync, &self.root.to_string_lossy(), "", 0, 0)?;
         dir.sync_all()?;
 
         Ok(path.to_string_lossy().into_owned())
